@@ -19,7 +19,7 @@ def check(ctx):
     ctx.rule("C16.G2", "the slot table built during preparation is a local that is neither returned, stored, nor captured by a closure")
     ctx.rule("C16.G3", "the run callback captures only the bound-call table, the observer and the retry decorator")
     ctx.rule("C16.G4", "a call's result flows only into its own result slot; argument lists are locals of BoundCall.run; no memoisation on the path; the retry wrapper does not keep the exception (frame/traceback cycle) after a failed attempt")
-    ctx.assume("garbage collection, references held by user code, and the traceback of the *recorded first failure* (which keeps that call's inputs alive until the run ends) are not decided")
+    ctx.assume("garbage collection timing and references held by user code are not decided; what the recorded first failure keeps alive is decided on a traceback/frame model (evaluated failure path)")
     try:
         er = E.discover(m)
     except AnalysisError:
